@@ -174,7 +174,9 @@ func executeRun(sc *scenario, tier string, tape *Tape, stats *Stats, tracing boo
 					res.Infra = x.msg
 				case simrt.LibraryFatal:
 					// the library did, outside any simulated task, what kills or hangs a real process
-					if sc.Race {
+					if sc.Race || sc.Prop == "C09" {
+						// C09: "never aborts the process, never hangs" - a lock that is never released, an
+						// unlock of an unlocked mutex
 						c.viol = &Violation{Property: sc.Prop, Class: sc.Prop + "/fatal", Sig: sc.Prop + "/fatal", Detail: "the library did what aborts or hangs a real process: " + x.Msg}
 					} else {
 						res.Infra = "library fatal outside this property's subject: " + x.Msg
